@@ -392,7 +392,7 @@ def equivalent(D, rels, parsed):
 MALFORMED = ["x <= ", "<= 1", "x + + y <= 1", "x y <= 1", "2 3 x <= 1", "x <= 1 >= y", "x = 1 = y", "x < 1", "x <== 1", "|x <= 1",
              "(x <= 1", "x) <= 1", "x * 2 <= 1", "x / 2 <= 1", "", "x", "1", "x <= y <", "x += 1", "2**x <= 1", "x^2 <= 1",
              "|x + |y|| <= 1", "$x <= 1", "x <= 1;", "x <= 1 <=", "x => 1", "x =< 1", "1x2 <= <= 3", "x - <= 1", "(x + 1 <= 2", "x + 1) <= 2",
-             "|x| |y| <= 1", "2 | x <= 1", "x <= 1 2", "x,y <= 1", "x <= .", "x <= 1..2", "_x <= 1", "3 = = x"]
+             "|x| |y| <= 1", "2 | x <= 1", "(1/0) x <= 1", "x <= (2/0)", "(4/(2-2))x <= 1", "x <= 1 2", "x,y <= 1", "x <= .", "x <= 1..2", "_x <= 1", "3 = = x"]
 
 
 def parse(s):
